@@ -30,7 +30,7 @@ ASSUMPTIONS = [
     "states with fewer than two accepted windows holding a peak are recorded but not judged",
 ]
 NOT_REACHED = ["find_peaks_kwargs other than None/{}", "masks of the wrong length assigned by hand"]
-BUDGET = {"quick": dict(cases=1200, seconds=60, shards=4),
+BUDGET = {"quick": dict(cases=2400, seconds=60, shards=4),
           "thorough": dict(cases=80000, seconds=600, shards=16)}
 REQUIRED = ["mon:textbook-estimator", "mon:accepted-only-twin", "mon:poisoned-rejected-rows-bit-identical",
             "mon:lognormal-reciprocity", "mon:alias-spelling", "mon:mean-curve-peak"]
